@@ -74,7 +74,9 @@ def one_case(args):
         return bad("abnormal end: %s" % ab)
     if npk == 0:
         # nothing to visit: the tool has to end normally without showing or writing any packet
-        if obs.parse_rdh_view(r.stdout) or (r.out_file or b""):
+        # (an -o file that existed before is either emptied or, because the run is refused before the output is opened, left as it was)
+        prefilled = b"\x5a" * 70000 if case % 3 == 0 and not big else b""
+        if obs.parse_rdh_view(r.stdout) or (r.out_file or b"") not in (b"", prefilled):
             return bad("empty input: rows or output produced from an empty input")
         return out
     if mode == "view_rdh":
